@@ -56,16 +56,17 @@ rdsparser_ct_init(rdsparser_ct_t *ct,
         hour = 24 + hour;
     }
 
-    ct->year = ((mjd * 100 - 1507820) / 36525);
-    uint32_t year_tmp = (ct->year * 36525) / 100;
-    ct->month = ((mjd * 100 - 1495610) - year_tmp * 100) * 100 / 306001;
-    uint32_t month_tmp = (ct->month * 306001) / 10000;
-    ct->day = mjd - 14956 - year_tmp - month_tmp;
+    /* MJD to Gregorian calendar date (valid for any MJD, not only 1900-2100) */
+    const int32_t z = (int32_t)mjd + 678881; /* days since 0000-03-01 */
+    const int32_t era = z / 146097;
+    const int32_t doe = z - era * 146097;
+    const int32_t yoe = (doe - doe / 1460 + doe / 36524 - doe / 146096) / 365;
+    const int32_t doy = doe - (365 * yoe + yoe / 4 - yoe / 100);
+    const int32_t mp = (5 * doy + 2) / 153;
+    ct->day = doy - (153 * mp + 2) / 5 + 1;
+    ct->month = (mp < 10) ? (mp + 3) : (mp - 9);
+    ct->year = yoe + era * 400 + (ct->month <= 2 ? 1 : 0);
 
-    uint8_t k = (ct->month == 14 || ct->month == 15) ? 1 : 0;
-    ct->year = 1900 + ct->year + k;
-    ct->month = ct->month - 1 - k * 12;
-    
     ct->hour = hour;
     ct->minute = minute;
     ct->offset = offset;
